@@ -72,6 +72,16 @@ let load_cmd () =
        | OutOfFuel -> Printf.printf "%s fuel\n" id)
     | _ -> ())
 
+let cls = function Ok _ -> "ok" | Err -> "err" | Panic -> "panic" | OutOfFuel -> "fuel"
+
+let total_cmd () =
+  iter_lines (fun line ->
+    match words line with
+    | [id; h] ->
+      let x = bytes_of_hex h in
+      Printf.printf "%s decode=%s load=%s\n" id (cls (decode x)) (cls (load sha1 x))
+    | _ -> ())
+
 let bytes_cmd f () =
   iter_lines (fun line ->
     match words line with
@@ -81,6 +91,7 @@ let bytes_cmd f () =
 let () =
   match Sys.argv with
   | [| _; "load" |] -> load_cmd ()
+  | [| _; "total" |] -> total_cmd ()
   | [| _; "hex" |] -> bytes_cmd hexdigest ()
   | [| _; "sha1" |] -> bytes_cmd sha1 ()
   | [| _; "decode" |] -> decode_cmd ()
